@@ -9,7 +9,8 @@
 //   src <enc> <feats> <hexbytes>           same, but the first tree is parsed from the given document bytes
 //
 // feats: letters followed by 0/1: x xml-declaration, s split-cdata-sections, d discard-default-content, b BOM,
-//        n namespaces (tree built with the NS methods and re-parsed with namespace processing), e entities
+//        n namespaces (tree built with the NS methods and re-parsed with namespace processing), e entities,
+//        z run DOMDocument::normalizeDocument() with "namespaces" on the built tree before serialising
 // tree : D <nchild> node*            document
 //        E <uri|-> <qname> <nattr> (<uri|-> <qname> <value>)* <nchild> node*
 //        T <hex> | C <hex> (CDATA) | M <hex> (comment) | P <target> <data>
@@ -110,13 +111,13 @@ static std::string doCan(const std::vector<std::string>& a) {
 }
 
 // ---------------------------------------------------------------------------------------------------
-struct Feats { bool x = true, s = true, d = true, b = false, n = true, e = true; };
+struct Feats { bool x = true, s = true, d = true, b = false, n = true, e = true, z = false; };
 static Feats parseFeats(const std::string& f) {
     Feats r;
     for (size_t i = 0; i + 1 < f.size(); i += 2) {
         bool v = f[i + 1] == '1';
         switch (f[i]) { case 'x': r.x = v; break; case 's': r.s = v; break; case 'd': r.d = v; break;
-                        case 'b': r.b = v; break; case 'n': r.n = v; break; case 'e': r.e = v; break; }
+                        case 'b': r.b = v; break; case 'n': r.n = v; break; case 'e': r.e = v; break; case 'z': r.z = v; break; }
     }
     return r;
 }
@@ -216,6 +217,45 @@ static void dump(std::string& o, const DOMNode* n, bool merge, bool dropNs = fal
     o += ")";
 }
 
+// "resolved" dump: every element/attribute as (namespaceURI, localName) -- prefixes and namespace declarations do
+// not matter --, adjacent Text/CDATA merged
+static const XMLCh* localOf(const DOMNode* n) { return n->getLocalName() ? n->getLocalName() : n->getNodeName(); }
+static void dumpResolved(std::string& o, const DOMNode* n) {
+    switch (n->getNodeType()) {
+    case DOMNode::DOCUMENT_NODE: o += "D("; break;
+    case DOMNode::ELEMENT_NODE: {
+        o += "E["; hexStr(o, n->getNamespaceURI()); o += ","; hexStr(o, localOf(n)); o += "]{";
+        DOMNamedNodeMap* am = n->getAttributes();
+        std::map<std::string, std::string> as;
+        for (XMLSize_t i = 0; i < am->getLength(); i++) {
+            DOMNode* a = am->item(i); std::string k, v;
+            const XMLCh* an = a->getNodeName();
+            if (XMLString::equals(an, XMLUni::fgXMLNSString) || XMLString::startsWith(an, XMLUni::fgXMLNSColonString)) continue;
+            const XMLCh* u = a->getNamespaceURI();
+            hexStr(k, (u && *u) ? u : 0); k += ","; hexStr(k, localOf(a)); hexStr(v, a->getNodeValue());
+            as[k] = v;
+        }
+        for (auto& kv : as) { o += kv.first + "=" + kv.second + ";"; }
+        o += "}("; break; }
+    case DOMNode::COMMENT_NODE: o += "M["; hexStr(o, n->getNodeValue()); o += "]"; return;
+    case DOMNode::PROCESSING_INSTRUCTION_NODE: o += "P["; hexStr(o, n->getNodeName()); o += ","; hexStr(o, n->getNodeValue()); o += "]"; return;
+    default: o += "?"; return;
+    }
+    bool inText = false;
+    for (DOMNode* c = n->getFirstChild(); c; c = c->getNextSibling()) {
+        short t = c->getNodeType();
+        if (t == DOMNode::TEXT_NODE || t == DOMNode::CDATA_SECTION_NODE) {
+            const XMLCh* v = c->getNodeValue();
+            if (v && *v) { if (!inText) { o += "X["; inText = true; } std::string h; hexStr(h, v); o += h; }
+            continue;
+        }
+        if (inText) { o += "]"; inText = false; }
+        dumpResolved(o, c);
+    }
+    if (inText) o += "]";
+    o += ")";
+}
+
 struct SerResult { std::string status, errs; std::vector<XMLByte> bytes; };
 static SerResult serialise(DOMImplementationLS* impl, DOMNode* n, const char* enc, const Feats& f) {
     SerResult r;
@@ -289,8 +329,22 @@ static std::string docCase(const std::vector<std::string>& a, bool fromSource) {
     } catch (const XMLException& e) { delete p0; return "build-exc:" + excName(e); }
     catch (const SAXException&) { delete p0; return "build-exc:SAXException"; }
 
+    // what every element/attribute must still resolve to after any namespace fix-up
+    std::string resolved0;
+    dumpResolved(resolved0, doc);
+    std::string nz = "";
+    if (f.z) {
+        // route (b): DOMDocument::normalizeDocument() with the "namespaces" parameter does the fix-up in the tree
+        try {
+            doc->getDOMConfig()->setParameter(XMLUni::fgDOMNamespaces, true);
+            doc->normalizeDocument();
+            nz = " norm=ok";
+        } catch (const DOMException& e) { nz = " norm=exc:DOMException:" + std::to_string((int)e.code); }
+        catch (const XMLException& e) { nz = " norm=exc:" + excName(e); }
+        catch (...) { nz = " norm=exc:unknown"; }
+    }
     SerResult s1 = serialise(implLS, doc, enc, f);
-    out = "ser=" + s1.status + " errs=" + s1.errs + " bytes=" + showHex(s1.bytes.data(), s1.bytes.size(), 2);
+    out = "ser=" + s1.status + nz + " errs=" + s1.errs + " bytes=" + showHex(s1.bytes.data(), s1.bytes.size(), 2);
     // re-parse whatever was emitted (also after a reported failure: emitted ill-formed output is recorded)
     XercesDOMParser p1;
     ParseErrs pe1;
@@ -321,10 +375,27 @@ static std::string docCase(const std::vector<std::string>& a, bool fromSource) {
             }
         }
         out += " eq=" + eq;
+        { std::string r2; dumpResolved(r2, d2); out += std::string(" res=") + (r2 == resolved0 ? "1" : "0"); }
         SerResult s2 = serialise(implLS, d2, enc, f);
-        out += std::string(" idem=") + ((s2.status == s1.status && s2.bytes == s1.bytes) ? "1" : "0");
+        std::string idem = (s2.status == s1.status && s2.bytes == s1.bytes) ? "1" : "0";
+        if (idem == "0" && s2.status == "ok" && s2.bytes.size() == s1.bytes.size()) {
+            // same length, different bytes: is the second serialisation a fixed point (attributes merely written in
+            // another order because the first tree's attribute map was not in sorted order)?
+            XercesDOMParser p2; ParseErrs pe2;
+            p2.setDoNamespaces(f.n); p2.setErrorHandler(&pe2); p2.setCreateEntityReferenceNodes(f.e);
+            try {
+                MemBufInputSource is2(s2.bytes.data(), s2.bytes.size(), "ser2");
+                p2.parse(is2);
+                DOMDocument* d3 = p2.getDocument();
+                if (pe2.first.empty() && d3 && d2->isEqualNode(d3)) {
+                    SerResult s3 = serialise(implLS, d3, enc, f);
+                    if (s3.status == "ok" && s3.bytes == s2.bytes) idem = "reordered";
+                }
+            } catch (...) {}
+        }
+        out += " idem=" + idem;
         if (eq == "0") { std::string da, db; dump(da, doc, false); dump(db, d2, false); out += " orig=" + da + " got=" + db; }
-    } else out += " eq=- idem=-";
+    } else out += " eq=- res=- idem=-";
     if (!fromSource) doc->release();
     delete p0;
     return out;
